@@ -802,7 +802,7 @@ class Tables:
                 if key in self.coerce:
                     continue
                 try:
-                    r = PRIM_CLS[p](x)
+                    r = self.construct(p, x)
                     if type(r) is not PRIM_CLS[p]:
                         raise Unencodable("constructor returned a subclass")
                     self.coerce[key] = f"(Ok {w.cval(r)})"
@@ -830,13 +830,20 @@ class Tables:
                     except Exception as e:
                         self.lens[cx] = f"(Err {errk(e)})"
 
+    def construct(self, p, x):
+        """what the converter's structure hook for the primitive class p does with x (the plain converters: the constructor)"""
+        return PRIM_CLS[p](x)
+
     def coq_env(self, name):
+        return f"Definition {name} : env := {self.env_term()}.\n"
+
+    def env_term(self):
         w = self.w
         co = "[" + ";\n   ".join(f"({PRIM_COQ[p]}, {cx}, {r})" for (p, cx), r in self.coerce.items()) + "]"
         ins = "[" + "; ".join(f"({cx}, {k}%N, {r})" for (cx, k), r in self.ins.items()) + "]"
         its = "[" + "; ".join(f"({cx}, {r})" for cx, r in self.iters.items()) + "]"
         lens = "[" + "; ".join(f"({cx}, {r})" for cx, r in self.lens.items()) + "]"
-        return (f"Definition {name} : env := mk_env\n  {w.cclasses()}\n  {w.cenums()}\n  {co}\n  {ins}\n  {its}\n  {lens}.\n")
+        return f"(mk_env\n  {w.cclasses()}\n  {w.cenums()}\n  {co}\n  {ins}\n  {its}\n  {lens})"
 
 
 def run_structure(conv, w: World, o, t):
